@@ -149,6 +149,11 @@ pub uninterp spec fn spec_prepend_child(content: Seq<char>, child: Seq<char>) ->
 impl BodyAppend {
     pub open spec fn wf(&self) -> bool { tree_ok(self.element_tree, self.position) }
     pub open spec fn frame(&self, o: &BodyAppend) -> bool { self.element_tree == o.element_tree && self.css_selector == o.css_selector && self.content == o.content }
+    // a fresh visitor stands at the head of its element path, buffers nothing, and carries exactly the filter's path, selector and value
+    //@@ fn src/filter/html_body_action/body_append.rs :: impl BodyAppend / fn new -> r
+    //@| ensures r.position == 0, r.element_tree == element_tree, r.css_selector == css_selector, r.content == content, r.inner_content == inner_content,
+    //@|     element_tree@.len() > 0 && element_tree@.len() < 0x7fff_ffff ==> r.wf(),
+
     //@@ fn src/filter/html_body_action/body_append.rs :: impl BodyAppend / fn enter -> r
     //@| requires old(self).wf(),
     //@| ensures final(self).wf(), final(self).frame(old(self)),
@@ -173,6 +178,11 @@ impl BodyAppend {
 impl BodyPrepend {
     pub open spec fn wf(&self) -> bool { tree_ok(self.element_tree, self.position) }
     pub open spec fn frame(&self, o: &BodyPrepend) -> bool { self.element_tree == o.element_tree && self.css_selector == o.css_selector && self.content == o.content }
+    // a fresh visitor stands at the head of its element path, buffers nothing, and carries exactly the filter's path, selector and value
+    //@@ fn src/filter/html_body_action/body_prepend.rs :: impl BodyPrepend / fn new -> r
+    //@| ensures r.position == 0, r.element_tree == element_tree, r.css_selector == css_selector, r.content == content, r.inner_content == inner_content, !r.is_buffering,
+    //@|     element_tree@.len() > 0 && element_tree@.len() < 0x7fff_ffff ==> r.wf(),
+
     //@@ fn src/filter/html_body_action/body_prepend.rs :: impl BodyPrepend / fn enter -> r
     //@| requires old(self).wf(),
     //@| ensures final(self).wf(), final(self).frame(old(self)),
@@ -197,6 +207,11 @@ impl BodyPrepend {
 impl BodyReplace {
     pub open spec fn wf(&self) -> bool { tree_ok(self.element_tree, self.position) }
     pub open spec fn frame(&self, o: &BodyReplace) -> bool { self.element_tree == o.element_tree && self.css_selector == o.css_selector && self.content == o.content }
+    // a fresh visitor stands at the head of its element path, buffers nothing, and carries exactly the filter's path, selector and value
+    //@@ fn src/filter/html_body_action/body_replace.rs :: impl BodyReplace / fn new -> r
+    //@| ensures r.position == 0, r.element_tree == element_tree, r.css_selector == css_selector, r.content == content, r.inner_content == inner_content, !r.is_buffering,
+    //@|     element_tree@.len() > 0 && element_tree@.len() < 0x7fff_ffff ==> r.wf(),
+
     //@@ fn src/filter/html_body_action/body_replace.rs :: impl BodyReplace / fn enter -> r
     //@| requires old(self).wf(),
     //@| ensures final(self).wf(), final(self).frame(old(self)),
